@@ -74,6 +74,9 @@ theorem values_subsequence_partial {s s' : Sys} (hr : Reachable s) {op : Op} (hs
       cases hl0 : s.logs r0 with
       | none => rw [hl0] at hstep; cases hstep
       | some l0 => rw [hl0] at hstep; simp only [Option.some.injEq] at hstep; subst hstep; exact hx
+    | rebuild src cid ents wh =>
+      obtain ⟨l0, _, _, rfl⟩ := rebuild_step hstep
+      exact hx
   refine ⟨l', hl', fun ho' => ?_⟩
   exact values_sublist (inv_mono_universe huni (I.inv r l hl)) (I'.inv r l' hl') hk.symm ho' hsub
 
@@ -83,7 +86,8 @@ theorem other_logs_untouched {s s' : Sys} {op : Op} (hstep : s.step op = some s'
       | .newLog _ _ _ => r ≠ s.n
       | .append r0 _ _ _ => r ≠ r0
       | .join r0 _ => r ≠ r0
-      | .setIdentity r0 _ => r ≠ r0) : s'.logs r = s.logs r := by
+      | .setIdentity r0 _ => r ≠ r0
+      | .rebuild _ _ _ _ => r ≠ s.n) : s'.logs r = s.logs r := by
   cases op with
   | newLog id cid k =>
     simp only [Sys.step, Option.some.injEq] at hstep; subst hstep
@@ -126,6 +130,9 @@ theorem other_logs_untouched {s s' : Sys} {op : Op} (hstep : s.step op = some s'
     | some l0 =>
       rw [hl0] at hstep; simp only [Option.some.injEq] at hstep; subst hstep
       exact upd_other _ _ _ _ hr
+  | rebuild src cid ents wh =>
+    obtain ⟨l0, _, _, rfl⟩ := rebuild_step hstep
+    exact upd_other _ _ _ _ hr
 
 /-! ### why the strict-total-order premise is needed (known finding `lww-tie-order`)
 
